@@ -678,7 +678,7 @@ def gen_unit(ctx: Ctx):
         yield {"kind": "match", "t": exp, "a": act, "origin": "table-set", "devkind": "set-member-bool-vs-number"
                if hashable and not strict_equal(x, y) and x == y else "set-changed-member"}, truth
 
-    n = 250 if q else 6000
+    n = 250 if q else 4000
     for _ in range(n):
         base = rand_json(rng, rng.choice([1, 2, 3, 3]), top_dict=rng.random() < 0.7)
         twin = numeric_twin(rng, copy.deepcopy(base))
@@ -696,7 +696,7 @@ def gen_unit(ctx: Ctx):
                 yield c, False
 
     # (c) directive-bearing expectations
-    n = 120 if q else 3000
+    n = 120 if q else 2000
     for _ in range(n):
         exp, act = gen_directive_pair(rng)
         yield {"kind": "match", "t": exp, "a": act, "origin": "directive-truthful"}, True
@@ -730,7 +730,7 @@ def gen_unit(ctx: Ctx):
         yield {"kind": "match", "t": {"a": 1, d: []}, "a": {"a": 1}, "origin": "expected-directive-key"}, None
 
     # (f) random pairs
-    n = 150 if q else 4000
+    n = 150 if q else 2500
     for _ in range(n):
         t = rand_json(rng, rng.choice([1, 2, 3]))
         a = rand_json(rng, rng.choice([1, 2, 3])) if rng.random() < 0.7 else copy.deepcopy(t)
@@ -770,7 +770,7 @@ def gen_unit(ctx: Ctx):
                 yield {"kind": "outcome", "e": e, "a": a}, truth
 
     # ---- verdict functions called directly on synthetic observations ----
-    n = 120 if q else 2500
+    n = 120 if q else 1500
     for _ in range(n):
         val = rand_json(rng, 2, top_dict=True)
         mat = {"apiVersion": "v1", "kind": "K",
@@ -809,7 +809,7 @@ def gen_unit(ctx: Ctx):
                        "obs": {"actual": a, "mat": mat, "called": called, "deleted": False}}, None
 
     # ---- MockApi / _merge_overlay ----
-    n = 60 if q else 1500
+    n = 60 if q else 800
     for _ in range(n):
         cur = rng.choice([None, {}, rand_json(rng, 2, top_dict=True), rand_json(rng, 3, top_dict=True)])
         calls = []
@@ -1120,7 +1120,7 @@ def model_assert(frag, tc):
 def e2e_cases(ctx: Ctx):
     """yields (case, truth, passed, label) for every derived assertion of every generated Function"""
     rng = ctx.rng
-    rounds = 3 if ctx.quick() else 45
+    rounds = 3 if ctx.quick() else 30
     loop = asyncio.new_event_loop()
     try:
         for intent in list(INTENTS) * rounds:
@@ -1394,7 +1394,7 @@ def run(ctx: Ctx):
 
 def replay(ctx: Ctx, data):
     case = data["case"] if "case" in data else data
-    truth = data.get("expected", {}).get("truth") if isinstance(data.get("expected"), dict) else None
+    truth = data.get("expected", {}).get("truth") if isinstance(data.get("expected"), dict) else data.get("truth")
     if case.get("kind") == "e2e":
         loop = asyncio.new_event_loop()
         try:
